@@ -436,7 +436,7 @@ func (e *Engine) coverAll(aggs map[string]*obAgg, order []string) int64 {
 			continue
 		}
 		switch a.Kind {
-		case "post", "assert", "pre", "chaninv", "inv.init", "inv.pres":
+		case "post", "assert", "pre", "chaninv", "monitor", "inv.init", "inv.pres":
 			// clauses somebody wrote: a clause no feasible path reaches proves nothing
 		default:
 			// implicit obligations (frame, nopanic, lock, nilchan, nonblock, delivery) on a dead defensive branch claim nothing
